@@ -66,6 +66,27 @@ theorem C19_resume_then_lost_finisheds {mx Ta Ti Tn : Nat} (ph : RecvState) (s :
   obtain ⟨pa, q1, q2, q3, q4, q5⟩ := c2 pf hpf
   exact ⟨pa, q1, q2, q3, q4, by rw [q5, wc]⟩
 
+/-! ### the premises are satisfiable -/
+
+/-- the receiver of `exRF` (file delivered, Finished PDU out), suspended at clock reading 100 -/
+def exRFs : Recv.State := recvStep exRF 100 .suspend
+
+example : (finRounds (recvStep exRFs 7000000000 .resume) [8000000000, 9000000500]).2.length = 2 ∧
+    ∀ pf ∈ (finRounds (recvStep exRFs 7000000000 .resume) [8000000000, 9000000500]).2,
+      ∃ pa, (sendStep (sendStep exS4 9000000600 (.pdu pf)) 9000000600 .send).sent = some pa ∧
+        (sendStep (sendStep exS4 9000000600 (.pdu pf)) 9000000600 .send).state = .Terminated := by
+  have hf : ∃ f, exRFs.finished = some (f, false) := ⟨_, rfl⟩
+  obtain ⟨f, hf⟩ := hf
+  have hri : RI cfgL.max (cfgL.ta * 1000000000) (cfgL.ti * 1000000000) (cfgL.tn * 1000000000) exRFs :=
+    ri_recvStep (ri_run _ _ (ri_new cfgL [([], .dir)] 0 (by decide) (by decide) (by decide) ⟨by decide, by decide, by decide⟩)) 100 .suspend
+  obtain ⟨c1, c2⟩ := C19_resume_then_lost_finisheds (mx := 4) (Ta := 1000000000) (Ti := 3000000000) (Tn := 1000000000)
+    .Finished exS4 exRFs 7000000000 9000000600 9000000700 f [8000000000, 9000000500] (by decide) (by decide) (by decide)
+    (by decide) (by decide) (by decide) (Or.inl rfl) (by decide) (by decide) hf (by decide) hri.inv.rt
+    ⟨by decide, by decide, by decide, by decide, by decide, by decide, by decide, by decide, by decide, by decide, trivial⟩
+  refine ⟨c1, fun pf hpf => ?_⟩
+  obtain ⟨pa, q1, q2, _⟩ := c2 pf hpf
+  exact ⟨pa, q1, q2⟩
+
 end Cfdp.Loop
 
 #print axioms Cfdp.Loop.C19_resume_then_lost_finisheds
